@@ -197,7 +197,7 @@ def run(ctx):
         rc.require(60, "rule comparisons")
     # the two back-ends denote the same operator expression for every operator form (incl. skip-until sets): C01's instances
     from . import c01
-    ctx.adopt(c01.run, {"R01-OPMAP": "R20-OPMAP"})
+    ctx.adopt(c01.run_opmap, {"R01-OPMAP": "R20-OPMAP"})
 
     ctx.assume("that optimised and unoptimised grammars accept the same inputs is not decided (pest's optimizer is trusted)")
     ctx.assume("rustc type-checking the fixture crates is the decision procedure for 'emitted code compiles'; sampled over the fixture grammars, "
